@@ -142,6 +142,7 @@ type csObs struct {
 	hijWritten   int // bytes the server had written when the hijack handler started
 	cliBefore    int // bytes the client had received before the hijack handler's marker
 	hijRead      []byte
+	hijErr       string // error (other than EOF) the hijack handler got while reading
 	hijReturned  atomic.Bool
 	problems     []string
 	inconclusive bool     // a server timeout fired before the client had written all its batches
@@ -159,9 +160,9 @@ func (o *csObs) addLog(s string) {
 
 func csReqBytes(r csReq, idx int) []byte {
 	var b bytes.Buffer
-	if r.Kind == "unread" || r.Kind == "bigunread" {
+	if r.Kind == "unread" || r.Kind == "bigunread" || r.Kind == "hijackbody" {
 		// POST whose (streamed) body the handler does not read
-		n := map[string]int{"unread": 12 << 10, "bigunread": 320 << 10}[r.Kind]
+		n := map[string]int{"unread": 12 << 10, "bigunread": 320 << 10, "hijackbody": 12 << 10}[r.Kind]
 		fmt.Fprintf(&b, "POST /r%d HTTP/%s\r\nHost: example.com\r\nContent-Length: %d\r\n", idx, r.Ver, n)
 		if r.Conn != "none" {
 			fmt.Fprintf(&b, "Connection: %s\r\n", r.Conn)
@@ -237,7 +238,7 @@ func csRunScaled(b *csBeh, scale int) *csObs {
 		Logger:             csNopLogger{},
 		MaxConnsPerIP:      map[bool]int{false: 0, true: 2}[b.Cfg.PerIP],
 		Concurrency:        map[bool]int{false: 0, true: 1}[b.Cfg.Busy],
-		StreamRequestBody:  csHasKind(b, "unread", "bigunread"),
+		StreamRequestBody:  csHasKind(b, "unread", "bigunread", "hijackbody"),
 		ReadTimeout:        csTimeout(b) * time.Duration(scale),
 		IdleTimeout:        csTimeout(b) * time.Duration(scale),
 		ConnState: func(c net.Conn, st ConnState) {
@@ -257,6 +258,16 @@ func csRunScaled(b *csBeh, scale int) *csObs {
 			o.log = append(o.log, "s:"+st.String())
 			o.mu.Unlock()
 		},
+	}
+	if csHasKind(b, "hijackdl") {
+		s.HeaderReceived = func(h *RequestHeader) RequestConfig {
+			var idx int
+			fmt.Sscanf(string(h.RequestURI()), "/r%d", &idx)
+			if idx >= 1 && idx <= len(flat) && flat[idx-1].Kind == "hijackdl" {
+				return RequestConfig{ReadTimeout: 40 * time.Millisecond, WriteTimeout: 40 * time.Millisecond}
+			}
+			return RequestConfig{}
+		}
 	}
 	s.Handler = func(ctx *RequestCtx) {
 		var idx int
@@ -287,7 +298,7 @@ func csRunScaled(b *csBeh, scale int) *csObs {
 			ctx.TimeoutError("verif timeout") // the serve loop continues with a fresh ctx
 			return
 		}
-		if r.Kind == "hijack" || r.Kind == "hijacknr" {
+		if r.Kind == "hijack" || r.Kind == "hijacknr" || r.Kind == "hijackbody" || r.Kind == "hijackdl" {
 			if r.Kind == "hijacknr" {
 				ctx.HijackSetNoResponse(true)
 			}
@@ -310,8 +321,12 @@ func csRunScaled(b *csBeh, scale int) *csObs {
 				for i := 0; i < 3; i++ {
 					csDisturb(s)
 				}
-				data, _ := io.ReadAll(c)
+
+				data, rerr := io.ReadAll(c) // must end with a clean EOF when the client closes
 				o.mu.Lock()
+				if rerr != nil {
+					o.hijErr = rerr.Error()
+				}
 				o.hijRead = data
 				o.mu.Unlock()
 				o.hijReturned.Store(true)
@@ -449,7 +464,7 @@ outer:
 		// the response of a hijacking request may be followed by the marker a little later
 		if !hijSeen && !closedSeen {
 			last := bt[len(bt)-1]
-			if last.Kind == "hijack" || last.Kind == "hijacknr" {
+			if last.Kind == "hijack" || last.Kind == "hijacknr" || last.Kind == "hijackbody" || last.Kind == "hijackdl" {
 				if it := readItem(); it == "hijack" {
 					hijSeen = true
 					break
@@ -498,6 +513,11 @@ outer:
 	if hijSeen {
 		// everything pipelined after the hijacking request has already been written; now send
 		// more bytes: they belong to the hijack handler too.  Closing our end gives it EOF.
+		if csHasKind(b, "hijackdl") {
+			// later than the per-request deadlines set through HeaderReceived: the hijack handler
+			// is blocked in Read meanwhile and must not be hit by them
+			time.Sleep(90 * time.Millisecond)
+		}
 		cli.Write([]byte(csLaterBytes)) //nolint:errcheck
 	}
 	cli.Close()
